@@ -6,7 +6,7 @@ cp $SRC/patch$NI.diff $D/patch.diff; cp $SRC/demo$NI.py $D/demo.py; [ -f $SRC/no
 python3 - "$ID" "$NI" "$NO" "$RES" "$NEEDS" <<'PY'
 import json, sys
 ID, NI, NO, RES, NEEDS = sys.argv[1:6]
-json.dump({"property": ID, "source": "independent sub-agent (round 2) given only the property text and a scratch worktree",
+json.dump({"property": ID, "source": "independent sub-agent (later rounds) given only the property text and a scratch worktree",
            "needs_to_manifest": NEEDS + " (details: notes.md, change %s)" % NI,
            "confirmed": {"how": "tools/seedtest.sh %s <patch> <demo> (scratch worktree of /repo HEAD, removed afterwards)" % ID,
                          "demo_clean_exit": 0, "demo_patched_exit": 1,
